@@ -2,7 +2,11 @@
 
 package p_distlock
 
-import "github.com/acquirecloud/golibs/kvs"
+import (
+	"time"
+
+	"github.com/acquirecloud/golibs/kvs"
+)
 
 // Without the timeout hooks the lock cannot run inside a bubble: the tests skip themselves.
 const hooksOn = false
@@ -11,3 +15,5 @@ func resetTimers()                                {}
 func drainTimers()                                {}
 func timerWorkers() int                           { return 0 }
 func waiterTable(st kvs.Storage) (int, int, bool) { return 0, 0, false }
+
+func setLease(d time.Duration) time.Duration { return d }
